@@ -207,6 +207,50 @@ def half_open_burst(rng):
     return s
 
 
+def multi_phase_burst(rng):
+    """several half-open phases in a row; trial calls of an EARLIER phase are still in flight when the breaker
+    re-opened (a sibling trial failed, or force_open) and went half-open again, and are only then cancelled,
+    completed or left alone, after which more callers arrive (a stale trial must give nothing back to the
+    phase that is current now)"""
+    perm = rng.choice([1, 2, 2, 3])
+    tb = int(rng.random() < 0.5)
+    wait = rng.choice([10, 20])
+    phases = rng.randint(2, 3)
+    n = 2 + phases * (perm + 3)
+    s = cfg(tb, 2, rng.choice([15, 50]), 2, 1, 2, 0, 50, 1, 2, wait, perm, int(rng.random() < 0.3), n)
+    s += seq_call(0, 2, 0) + seq_call(1, 2, 0)
+    nxt = 2
+    stale = []
+    for ph in range(phases):
+        s += [3, wait + rng.choice([0, 0, 3]), 0]
+        mine = []
+        for _ in range(perm + rng.choice([0, 0, 1])):
+            s += [1, nxt, 0]
+            mine.append(nxt)
+            nxt += 1
+        mine = mine[:perm]                       # those beyond perm were rejected at once
+        # deal with left-overs of earlier phases while this phase is full
+        for j in list(stale):
+            x = rng.random()
+            if x < 0.6:
+                s += [2, j, 0]; stale.remove(j)
+            elif x < 0.75:
+                s += [4, j, rng.choice([0, 2, 4]), 1, j, 0]; stale.remove(j)
+        for _ in range(rng.choice([1, 1, 2])):
+            s += [1, nxt, 0]
+            nxt += 1
+        if ph == phases - 1:
+            break
+        # re-open: one trial fails (if another stays in flight) or the operator forces it open
+        if len(mine) >= 2 and rng.random() < 0.7:
+            j = mine.pop(rng.randrange(len(mine)))
+            s += [4, j, 2, 1, j, 0]
+        else:
+            s += [5, 0, 0]
+        stale += mine
+    return s
+
+
 def shrink(s):
     head, body = s[:NCFG], s[NCFG:]
     k = len(body) // 3
